@@ -45,6 +45,9 @@ func TestVerif(t *testing.T) {
 		verifC09(t, r, out) // the receive-retry clause of C10 is the listener's loop
 		verifC10Group(t, r, out)
 		verifC10GroupQ(t, r, out)
+	case "C11":
+		// nothing in virtual time: the network-namespace scenario (TestVerifNetns) is this
+		// package's part of C11
 	case "C12":
 		verifC12(t, r, out)
 	case "C17":
